@@ -11,7 +11,7 @@ commits = subprocess.run(['git', '-C', '/repo', 'log', '--format=%H %s'], stdout
 hook_commits = [c.split()[0] for c in commits if c.split(' ', 1)[1].startswith('verif:')]
 checks = []
 for pid in all_ids:
-    if pid not in props.PROPS:
+    if pid not in props.PROPS or pid not in meta.get('ready', list(props.PROPS)):
         continue
     spec = props.PROPS[pid]
     m = meta['checks'].get(pid, {})
@@ -27,7 +27,7 @@ for pid in all_ids:
         technique=m.get('technique', 'runtime monitoring: stress + delay/fault injection, recorded-event oracles, ASan/UBSan/TSan'),
     ))
 na = [dict(property_id=pid, reason=meta['not_applicable'].get(pid, 'check not built yet (work in progress; not a claim that the technique cannot apply)'))
-      for pid in all_ids if pid not in props.PROPS]
+      for pid in all_ids if pid not in props.PROPS or pid not in meta.get('ready', list(props.PROPS))]
 man = dict(
     version=1,
     setup_cmd='./check --setup',
